@@ -11,12 +11,13 @@ import (
 
 // Numerals (spec/XNum.tla)
 type Num struct {
-	C string `json:"c"`
-	S int    `json:"s,omitempty"`
-	N int64  `json:"n,omitempty"`
-	D int64  `json:"d,omitempty"`
-	E int    `json:"e,omitempty"`    // c = "pow2": the double s * 2^e
-	B string `json:"bits,omitempty"` // only for c = "other"
+	C  string `json:"c"`
+	S  int    `json:"s,omitempty"`
+	N  int64  `json:"n,omitempty"`
+	D  int64  `json:"d,omitempty"`
+	E  int    `json:"e,omitempty"`    // c = "pow2": the double s * 2^e
+	ID string `json:"id,omitempty"`   // c = "named": a boundary double known by name
+	B  string `json:"bits,omitempty"` // only for c = "other"
 }
 
 func (n Num) Float() (float64, bool) {
@@ -35,11 +36,25 @@ func (n Num) Float() (float64, bool) {
 		return float64(n.S) * (float64(n.N) / float64(n.D)), true
 	case "pow2":
 		return math.Ldexp(float64(n.S), n.E), true
+	case "named":
+		if f, ok := namedDoubles[n.ID]; ok {
+			return f, true
+		}
 	}
 	return 0, false
 }
 
+var namedDoubles = map[string]float64{
+	"halfpred": math.Float64frombits(0x3FDFFFFFFFFFFFFF), "-halfpred": -math.Float64frombits(0x3FDFFFFFFFFFFFFF),
+	"odd52": 4503599627370497, "-odd52": -4503599627370497,
+}
+
 func numOf(f float64) Num {
+	for id, v := range namedDoubles {
+		if v == f {
+			return Num{C: "named", ID: id}
+		}
+	}
 	switch {
 	case math.IsNaN(f):
 		return Num{C: "nan"}
